@@ -103,13 +103,22 @@ func vfC15RunMetric(c vfC15Case, ctx *vfCtx) *vfViolation {
 		name string
 		idx  VectorIndex
 	}
+	// a second IVF index is trained on a SAMPLE (the first third of the data) and then given everything:
+	// whatever the training sample, probing all clusters is exact and insertion order does not matter
+	ivfSample, err := NewIVFIndex(c.Dim, nlistIVF, kind)
+	if err != nil {
+		return vfFail("NewIVFIndex: %v", err)
+	}
+	if err := ivfSample.Train(nodes()[:len(data)/3]); err != nil {
+		return vfFail("ivf Train on a third of the data: %v", err)
+	}
 	kinds := []named{{"hnsw", hnsw}, {"hnsw0", hnsw0}, {"ivf", ivf}, {"pq", pq}, {"ivfpq", ivfpq}}
 	for _, k := range kinds {
 		if err := k.idx.Train(nodes()); err != nil {
 			return vfFail("%s Train on %d vectors: %v", k.name, len(data), err)
 		}
 	}
-	for _, k := range append(kinds, named{"flat", flat}) {
+	for _, k := range append(kinds, named{"flat", flat}, named{"ivf(sample-trained)", ivfSample}) {
 		for _, nd := range nodes() { // insertion order = generation order
 			if err := k.idx.Add(nd); err != nil {
 				return vfFail("%s Add: %v", k.name, err)
@@ -141,16 +150,31 @@ func vfC15RunMetric(c vfC15Case, ctx *vfCtx) *vfViolation {
 		{"hnsw(0,0,0 = defaults)", hnsw0, 0, 0.9, 0, false, true},
 		{"ivf(nprobes=sqrt(nlist)=7)", ivf, 7, 0.4, 0, false, true},
 		{"ivf(full probe)", ivf, nlistIVF, 1.0, 0, true, false},
+		{"ivf(trained on a third of the data, full probe)", ivfSample, nlistIVF, 1.0, 0, true, true},
+		{"ivf(nprobes=0 = all clusters)", ivf, 0, 1.0, 0, true, false},
 		{"pq(M=8,8 bits)", pq, 0, 0.5, 0.85, false, true},
 		{"ivfpq(nlist=16,M=8,8 bits,full probe)", ivfpq, nlistIVFPQ, 0.5, 0.85, false, true},
+		{"ivfpq(nlist=16,M=8,8 bits,nprobes=0 = all clusters)", ivfpq, 0, 0.5, 0.85, false, false},
 	}
 	exact := make([][]uint32, len(queries))
+	// ids tied with the 10th exact neighbour (bit-equal score): any of them is a legitimate 10th
+	tiedAtCut := make([]map[uint32]bool, len(queries))
 	for qi, q := range queries {
 		ids, err := top(flat, q, 0)
 		if err != nil || len(ids) != 10 {
 			return vfFail("exact search failed: %v (%d results)", err, len(ids))
 		}
 		exact[qi] = ids
+		wide, err := flat.NewSearch().WithQuery(vfCloneF32(q)).WithK(24).Execute()
+		if err == nil && len(wide) > 10 && wide[9].GetScore() == wide[10].GetScore() {
+			tiedAtCut[qi] = map[uint32]bool{}
+			for _, r := range wide {
+				if r.GetScore() == wide[9].GetScore() {
+					tiedAtCut[qi][r.GetId()] = true
+				}
+			}
+			ctx.Class("exact_tie_at_rank_10")
+		}
 	}
 	for _, cf := range cfgs {
 		var inter, top1 int
@@ -164,7 +188,7 @@ func vfC15RunMetric(c vfC15Case, ctx *vfCtx) *vfViolation {
 				want[id] = true
 			}
 			for _, id := range ids {
-				if want[id] {
+				if want[id] || tiedAtCut[qi][id] {
 					inter++
 				}
 				if id == exact[qi][0] {
